@@ -9,9 +9,9 @@ CONSTANT Vids <- VidsDef
 CONSTANT Uuid <- UuidDef
 CONSTANT MaxFaults = 1
 CONSTANT MaxTries = 2
-CONSTANT FaultKinds = {"drop", "trunc", "burst", "dup"}
+CONSTANT FaultKinds = {"drop", "trunc", "burst"}
 CONSTANT Bursts <- BurstsDef
-CONSTANT Script <- ScriptAll
+CONSTANT Script <- ScriptReassign
 INVARIANT NoBadAccept
 INVARIANT NoMisMatch
 INVARIANT FramingOk
